@@ -39,6 +39,12 @@ def plan(tier, seed):
              "collide": 100000, "exprs": 3000} for i in range(16)]
 
 
+# attribute names given as strings (getattr): ASCII ones and pairs of DIFFERENT identifiers that Unicode normalisation
+# (NFKC) would fold together (micro sign / Greek mu, ohm sign / Omega, ligature fi / "fi", composed / decomposed e-acute)
+ATTR_NAMES = ["p", "q", "a", "b", "x", "_y", "data", "k", "p", "q", "a", "b",
+              "\u00b5_x", "\u03bc_x", "\u2126", "\u03a9", "\ufb01", "fi", "\u00e9", "e\u0301"]
+
+
 def rand_key(rng, depth=0):
     x = rng.random()
     if x < 0.45:
@@ -68,7 +74,7 @@ def rand_path(rng):
         if rng.random() < 0.7:
             steps.append(("i", rand_key(rng)))
         else:
-            steps.append(("a", rng.choice(["p", "q", "a", "b", "x", "_y", "data", "k"])))
+            steps.append(("a", rng.choice(ATTR_NAMES)))
     return (label, tuple(steps))
 
 
